@@ -65,6 +65,8 @@ type Line struct {
 	TS  int64  `json:"ts"` // unix nanoseconds
 	Msg string `json:"msg"`
 	Typ byte   `json:"typ"` // 0 = stdout default
+	// ZoneMin writes the timestamp in a zone that many minutes east of UTC (the same instant).
+	ZoneMin int `json:"zone_min,omitempty"`
 }
 
 // EncodeLog renders lines as Docker's multiplexed stream with RFC3339Nano timestamps.
@@ -76,6 +78,9 @@ func EncodeLog(lines []Line) []byte {
 			typ = fakedocker.Stdout
 		}
 		ts := time.Unix(0, l.TS).UTC().Format(time.RFC3339Nano)
+		if l.ZoneMin != 0 {
+			ts = time.Unix(0, l.TS).In(time.FixedZone("", l.ZoneMin*60)).Format("2006-01-02T15:04:05.000000000Z07:00")
+		}
 		out = append(out, fakedocker.EncodeRecord(typ, ts, []byte(l.Msg))...)
 	}
 	return out
